@@ -77,7 +77,7 @@ func c12Body(sc c12Scn) func(x *vs.Exec) {
 				direct, _, _ = env.Inbound(env.TCP, P, "/ip4/1.2.3.4/tcp/5001")
 			}
 		})
-		if !s.Run() {
+		if !s.Run() && !s.Free {
 			x.Fail("deadlock", "setup did not finish: %s", s.Deadlock)
 			return
 		}
@@ -347,6 +347,22 @@ func TestVerifC12(t *testing.T) {
 			}
 		}
 		t.Fatalf("scenario %q not found", rp.Scenario)
+	}
+	if vs.FreeMode() {
+		// free-running pass for the race detector (validates the data-race-freedom assumption of the scheduler)
+		r := vrep.New("C12", "race-pass")
+		dl := vrep.Deadline()
+		n := 0
+		for time.Now().Before(dl) {
+			for _, sc := range scs {
+				runs, _ := vs.FreeRun(t, c12Scenario(sc), 3, dl)
+				n += runs
+			}
+		}
+		r.Executions = int64(n)
+		r.Note("free-running executions: %d", n)
+		r.Flush()
+		return
 	}
 	si, sn := vrep.Shard()
 	bound := 2
